@@ -141,7 +141,9 @@ def generate(tier, seed):
         sh = list(sp["species"])
         rnd.shuffle(sh)
         cases.append({"spec": sp, "ops": ops, "shuffled_species": sh, "lineage": lineage, "nontrivial": nontrivial,
-                      "seeds": [rnd.getrandbits(30) + 1 for _ in range(3)]})
+                      # "all seeds": one of the three is a 64-bit value (some with all-zero low 32 bits)
+                      "seeds": [rnd.getrandbits(30) + 1, rnd.getrandbits(30) + 1,
+                                rnd.choice([2 ** 32, 3 * 2 ** 32, 2 ** 40, 2 ** 63, 2 ** 64 - 2 ** 32, 2 ** 32 + rnd.getrandbits(20) + 1, rnd.getrandbits(63) + 2 ** 33])]})
     return cases
 
 
